@@ -41,14 +41,21 @@ theorem mem_filter_whole_iso (m : List Bool) (ts : List Tri) (hwf : WF m.length 
 /-- PROPERTY (clause "keeps exactly the triangles all of whose vertices survive"): on every
 well-formed mesh and every mask of the right length that is not all-true and keeps a triangle,
 `from_mask` succeeds and its triangle list is, in order, the list of the triangles whose three
-vertices are all kept by the mask (each renumbered by one map `ρ`). -/
+vertices are all kept by the mask, each renumbered by one map `ρ` that is monotone and identifies no two vertices of
+the kept triangles (so the renumbering is a relabelling, not a collapse). -/
 theorem mask_keeps_whole_triangles (M : Mesh P C T) (m : List Bool)
     (hlen : m.length = M.pts.length) (hall : m.all id = false)
     (hwf : WF M.pts.length M.tris) (hne : M.tris.filter (wholeTri m) ≠ []) :
-    ∃ R ρ, fromMask M m = .ok R ∧ R.tris = (M.tris.filter (wholeTri m)).map (Tri.map ρ) := by
+    ∃ R ρ, fromMask M m = .ok R ∧ R.tris = (M.tris.filter (wholeTri m)).map (Tri.map ρ) ∧
+      (∀ a b, a ≤ b → ρ a ≤ ρ b) ∧
+      (∀ t ∈ M.tris.filter (wholeTri m), ∀ t' ∈ M.tris.filter (wholeTri m), ∀ v ∈ t.verts, ∀ w ∈ t'.verts,
+        ρ v = ρ w → v = w) := by
   have hwf' : WF m.length M.tris := by rw [hlen]; exact hwf
   have hne' : maskAdj m M.tris ≠ [] := by rw [maskAdj_eq_filter_whole m M.tris hwf']; exact hne
-  exact ⟨_, rank (isolatedMask m M.tris), fromMask_normal M m hlen hall hwf hne', rfl⟩
+  refine ⟨_, rank (isolatedMask m M.tris), fromMask_normal M m hlen hall hwf hne', rfl, rank_mono _, ?_⟩
+  intro t ht t' ht' v hv w hw h
+  exact rank_inj _ v w (mem_filter_whole_iso m M.tris hwf' t ht v hv)
+    (mem_filter_whole_iso m M.tris hwf' t' ht' w hw) h
 
 /-- PROPERTY (clauses "renumbers the triangle list consistently so that every kept triangle still
 joins the same three coordinates" and "carries per-vertex colours and texture coordinates along with
